@@ -239,6 +239,7 @@ class C20(Harness):
         for cfg in range(5):
             us.append({'kind': 'ops', 'cfg': cfg, 'n': b['ops_len'] if cfg < 4 else 2})
         us.append({'kind': 'samestream'})
+        us.append({'kind': 'retry'})
         for style, fmt in (('classic', '%(nosuch)s %(message)s'), ('format', '{nosuch} {message}'),
                            ('template', '$nosuch $message')):
             us.append({'kind': 'arbitrary-order', 'style': style, 'fmt': fmt})
@@ -311,6 +312,8 @@ class C20(Harness):
                 return self._reconf(unit, inp)
             if k == 'samestream':
                 return self._samestream()
+            if k == 'retry':
+                return self._retry()
             if k == 'arbitrary-order':
                 return self._arbitrary_order(unit)
         except Exception as e:
@@ -551,6 +554,48 @@ class C20(Harness):
             self._reset_logging(name)
             logging.getLogger(name).propagate = True
 
+    def _retry(self):
+        """a factory call that fails at its SECOND handler (the directory of its file does not exist yet), the
+        directory is created, the factory is called again; then the files are moved away and reopenFiles()
+        must recreate exactly the two configured files, closeFiles() must close both streams"""
+        import ZConfig
+        from ZConfig.components.logger import loghandler
+        name = 'vf.c20.retry'
+        self._reset_logging(name)
+        d = os.path.join(tmpdir(), 'retry')
+        shutil.rmtree(d, ignore_errors=True)
+        os.makedirs(d)
+        a, b = os.path.join(d, 'a.log'), os.path.join(d, 'late', 'b.log')
+        text = ('<logger>\nname %s\nlevel info\npropagate no\n<logfile>\npath %s\n</logfile>\n<logfile>\npath %s\n</logfile>\n</logger>\n'
+                % (name, a, b))
+        try:
+            schema = ZConfig.loadSchemaFile(io.StringIO(LOG_SCHEMA))
+            cfg, _ = ZConfig.loadConfigFile(schema, io.StringIO(text))
+            fac = cfg.loggers[0]
+            try:
+                fac()
+                first = 'returned'
+            except OSError:
+                first = 'failed'
+            os.makedirs(os.path.dirname(b))
+            lg = fac()
+            lg.info('one')
+            n_handlers = len(lg.handlers)
+            for p in (a, b):
+                os.rename(p, p + '.1')
+            loghandler.reopenFiles()
+            lg.info('two')
+            recreated = [os.path.exists(p) and 'two' in open(p).read() for p in (a, b)]
+            rotated_clean = ['two' not in open(p + '.1').read() for p in (a, b)]
+            loghandler.closeFiles()
+            still_open = len([h for h in lg.handlers if getattr(h, 'stream', None) is not None and not h.stream.closed])
+            return ('ok', first, n_handlers, recreated, rotated_clean, still_open)
+        except Exception as e:
+            return ('crash', type(e).__name__, str(e)[:80])
+        finally:
+            self._reset_logging(name)
+            shutil.rmtree(d, ignore_errors=True)
+
     def _ops(self, unit, inp):
         """op 0: call the factory; 1: reopenFiles(); 2: closeFiles(); 3: drop the logger's handlers
         (remove + forget, so they can be collected).  After every step the registry must hold exactly
@@ -637,6 +682,8 @@ class C20(Harness):
             return ('reconf-consistent',)
         if k == 'samestream':
             return ('ok', ['StreamHandler'] * 3, [30, 10, 40], ['hello', 'A-hello', 'hello'])
+        if k == 'retry':
+            return ('ok', 'failed', 2, [True, True], [True, True], 0)
         if k == 'arbitrary-order':
             return ('ok', ['any', 'refused'])
         if k == 'factory':
